@@ -286,6 +286,15 @@ pub(crate) fn blend<S: Sample>(
                 let target_grid = target_grid.convert_to_float_modular(bit_depth)?;
                 target_subgrid = {
                     let grid_region = base_grid.regions_and_shifts()[idx].0;
+                    if !grid_region.contains(base_frame_region) {
+                        // e.g. a reference-only frame smaller than the canvas used as background
+                        tracing::error!(
+                            ?grid_region,
+                            ?base_frame_region,
+                            "Reference frame does not cover the region to blend"
+                        );
+                        return Err(crate::Error::InvalidReference(ref_idx as u32));
+                    }
                     let region = base_frame_region.translate(-grid_region.left, -grid_region.top);
                     let Region {
                         left,
@@ -310,6 +319,9 @@ pub(crate) fn blend<S: Sample>(
                     base_alpha = Some({
                         let grid_region =
                             base_grid.regions_and_shifts()[alpha_idx + color_channels].0;
+                        if !grid_region.contains(base_frame_region) {
+                            return Err(crate::Error::InvalidReference(ref_idx as u32));
+                        }
                         let region =
                             base_frame_region.translate(-grid_region.left, -grid_region.top);
                         let Region {
